@@ -842,7 +842,7 @@ namespace adm {
         auto type = parseAttribute<FrequencyType>(element, "typeDefinition");
         if (type == "lowPass") {
           setValue<LowPass>(element, frequency);
-        } else if (type == "highpass") {
+        } else if (type == "highPass") {
           setValue<HighPass>(element, frequency);
         }
       }
